@@ -98,7 +98,44 @@ func planC06(tier string, seed int64) (*core.Plan, error) {
 					}
 					if ok {
 						emit(core.Case{"kind": "order", "names": names, "kinds": ks})
+						// one of the siblings taken away by a deviation: the others stay, in order
+						emit(core.Case{"kind": "order", "names": names, "kinds": ks, "drop": names[(rot+2)%6]})
+						if rot%2 == 0 {
+							emit(core.Case{"kind": "order", "names": names, "kinds": ks, "drop": names[(rot+5)%6]})
+						}
 					}
+				}
+			}
+			// statements of one kind keep the order they are written in: every permutation of three
+			// (four for thorough) arguments
+			perms := func(xs []string) [][]string {
+				var out [][]string
+				var rec func(cur, rest []string)
+				rec = func(cur, rest []string) {
+					if len(rest) == 0 {
+						out = append(out, append([]string{}, cur...))
+						return
+					}
+					for i := range rest {
+						nr := append(append([]string{}, rest[:i]...), rest[i+1:]...)
+						rec(append(cur, rest[i]), nr)
+					}
+				}
+				rec(nil, xs)
+				return out
+			}
+			dates := []string{"2019-03-01", "2021-11-30", "2024-01-01", "2020-02-29"}
+			words := []string{"alpha", "bravo", "charlie", "delta"}
+			n := 3
+			if tier == "thorough" {
+				n = 4
+			}
+			for _, pm := range perms(dates[:n]) {
+				emit(core.Case{"kind": "order", "what": "revisions", "names": pm})
+			}
+			for _, what := range []string{"musts", "iffeatures", "enums", "bits", "keys", "unique", "lldefaults"} {
+				for _, pm := range perms(words[:n]) {
+					emit(core.Case{"kind": "order", "what": what, "names": pm})
 				}
 			}
 			// determinism: the repository's own test modules
